@@ -107,11 +107,12 @@ class MyPyAstVisitor:
                     WildcardImport(import_.id),
                 )
 
-        # Search for a Docstring
-        for definition in child_definitions:
+        # Search for a Docstring. Only a string that is the first statement of the module is its docstring.
+        all_definitions = get_mypyfile_definitions(node)
+        if all_definitions:
+            definition = all_definitions[0]
             if isinstance(definition, mp_nodes.ExpressionStmt) and isinstance(definition.expr, mp_nodes.StrExpr):
                 docstring = definition.expr.value
-                break
 
         # Create module id to get the full path
         id_ = node.fullname.replace(".", "/")
